@@ -380,8 +380,11 @@ def rule_s_grow(ctx):
         # allocation delegated to a small helper: the helper passes one of its own parameters straight to hashbrown
         for x in ctx.calls(b):
             lc = x.local_callee()
-            if lc is None or lc.kind == "Closure" or b.is_cleanup(x.loc.bb):
+            if lc is None or lc.kind == "Closure" or b.is_cleanup(x.loc.bb) or lc.path == b.path:
                 continue
+            from core import ty_contains_adt
+            if not ty_contains_adt(ctx.facts.types, lc.locals[0]["ty"], "hashbrown::raw::RawTable"):
+                continue      # not a function that hands back a table
             inner = [y for y in ctx.calls(lc) if y.tname in (HBT + "with_capacity", HBT + "try_with_capacity") and not lc.is_cleanup(y.loc.bb)]
             if not inner:
                 continue
@@ -554,6 +557,10 @@ def rule_s_reserve(ctx):
         if b.name not in ("reserve", "try_reserve"):
             continue
         usize_params = [l for l in range(2, b.arg_count + 1) if ctx.facts.types[b.locals[l]["ty"]]["s"] == "usize"]
+        if b.path in reps:
+            # the growth happens in this very body (helper merged into it): S-grow proves arg >= L + <each usize parameter of this body>
+            g += 1
+            R.inst(fn=b.path, callee="(grows in place)", verdict="ok: obligation arg >= len + additional is S-grow's for this body")
         for c in ctx.calls(b):
             lc = c.local_callee()
             if lc is None or not (lc.path in reps or any(p in reps for p in ctx.reachable_bodies(lc.path))) or lc.path in movers(ctx):
